@@ -10,6 +10,7 @@ def fl(lo, hi):
 
 def logu(lo, hi):
     """log-uniform float in [lo, hi]"""
+    lo, hi = float(lo), float(hi)
     return fl(math.log(lo), math.log(hi)).map(lambda v: min(hi, max(lo, math.exp(v))))
 
 
